@@ -1181,23 +1181,23 @@ Record ti_ok (s : schema) (ti : tinfo) : Prop := mkTiOk {
   tk_feat : forall fd, In fd (ti_feats ti) ->
       fd_name fd = pyname (fd_xname fd) /\ reserved_free (fd_xname fd) = true /\ String.eqb (fd_xname fd) A_ID = false;
   tk_base : memb T_ANNOTATION_BASE (ti_anc ti) = true -> forall fd, In fd (ti_feats ti) ->
-      (fd_name fd = "sofa" -> fkind_of s fd = FRef) /\
-      (fd_name fd = "begin" \/ fd_name fd = "end" -> fkind_of s fd = FPrim PInt);
+      fd_name fd = "sofa" -> fkind_of s fd = FRef;
+  tk_be : memb T_ANNOTATION (ti_anc ti) = true -> forall fd, In fd (ti_feats ti) ->
+      fd_name fd = "begin" \/ fd_name fd = "end" -> fkind_of s fd = FPrim PInt;
   tk_ann : memb T_ANNOTATION (ti_anc ti) = true -> memb T_ANNOTATION_BASE (ti_anc ti) = true;
   tk_sa : memb T_STRING_ARRAY (ti_anc ti) = String.eqb (ti_name ti) T_STRING_ARRAY;
   tk_arr : is_array_name (ti_name ti) = true ->
       exists fd, ti_feats ti = [fd] /\ fd_name fd = "elements" /\ fd_xname fd = "elements" /\ fd_range fd = T_TOP }.
 Lemma ti_okb_ok s ti : ti_okb s ti = true -> ti_ok s ti.
 Proof.
-  unfold ti_okb. rewrite !andb_true_iff. intros [[[[[H1 H2] H3] H4] H5] H6]. constructor.
+  unfold ti_okb. rewrite !andb_true_iff. intros [[[[[[H1 H2] H3] H3'] H4] H5] H6]. constructor.
   - apply nodup_sb_NoDup. exact H1.
   - intros fd Hin. rewrite forallb_forall in H2. specialize (H2 fd Hin). rewrite !andb_true_iff, negb_true_iff in H2.
     destruct H2 as [[A B] C]. apply String.eqb_eq in A. auto.
-  - intros Hb fd Hin. rewrite Hb in H3. cbn [negb orb] in H3. rewrite forallb_forall in H3. specialize (H3 fd Hin). split.
-    + intros E. rewrite E in H3. cbn in H3. apply fkind_eqb_eq. exact H3.
-    + intros E. destruct (String.eqb (fd_name fd) "sofa") eqn:Es.
-      { apply String.eqb_eq in Es. destruct E as [E|E]; rewrite E in Es; discriminate. }
-      destruct E as [E|E]; rewrite E in H3; cbn in H3; apply fkind_eqb_eq; exact H3.
+  - intros Hb fd Hin E. rewrite Hb in H3. cbn [negb orb] in H3. rewrite forallb_forall in H3. specialize (H3 fd Hin).
+    rewrite E in H3. cbn in H3. apply fkind_eqb_eq. exact H3.
+  - intros Hb fd Hin E. rewrite Hb in H3'. cbn [negb orb] in H3'. rewrite forallb_forall in H3'. specialize (H3' fd Hin).
+    destruct E as [E|E]; rewrite E in H3'; cbn in H3'; apply fkind_eqb_eq; exact H3'.
   - intros Ha. rewrite Ha in H4. cbn in H4. exact H4.
   - apply Bool.eqb_prop. exact H5.
   - intros Ha. rewrite Ha in H6. cbn [negb orb] in H6. destruct (ti_feats ti) as [|fd [|]]; try discriminate.
@@ -1289,22 +1289,33 @@ Proof.
   destruct (xkids e (fd_xname fd)) as [|k0 kr] eqn:Hkids; cbn [map] in Hw, H1.
   - (* no child elements of this name *)
     rewrite Hw. clear Hw.
-    destruct (memb T_ANNOTATION_BASE (ti_anc ti)) eqn:Hbase.
-    + pose proof (intify_lookup _ _ _ Ha2 (fd_name fd)) as [I1 I2]. rewrite H1 in I1, I2.
-      destruct (memb (fd_name fd) ["begin"; "end"; "sofa"]) eqn:Hm.
-      * specialize (I2 eq_refl). destruct (tk_base _ _ Hti Hbase fd Hin) as [Bs Bbe].
-        destruct (String.eqb (fd_name fd) "sofa") eqn:Es; cbn [andb].
-        -- split; [reflexivity|]. destruct (xattr e (fd_xname fd)) as [a|]; cbn [option_map] in I2.
-           ++ destruct I2 as (z & Hz & ->). exists z. auto.
-           ++ rewrite I2. reflexivity.
-        -- destruct (xattr e (fd_xname fd)) as [a|]; cbn [option_map] in I2.
-           ++ destruct I2 as (z & Hz & ->). right. exists z. split; [exact Hz|split; [reflexivity|]]. apply Bbe.
-              cbn [memb] in Hm. rewrite Es in Hm. rewrite !orb_false_r in Hm. apply orb_true_iff in Hm as [Hm|Hm]; apply String.eqb_eq in Hm; auto.
-           ++ rewrite I2. reflexivity.
-      * rewrite (I1 eq_refl). assert (Es : String.eqb (fd_name fd) "sofa" = false).
-        { cbn [memb] in Hm. rewrite !orb_false_iff in Hm. tauto. }
-        rewrite Es. cbn [andb]. destruct (xattr e (fd_xname fd)); cbn [option_map]; auto.
-    + inversion Ha2; subst a2. rewrite H1. rewrite andb_false_r. destruct (xattr e (fd_xname fd)); cbn [option_map]; auto.
+    pose proof (intify_lookup _ _ _ Ha2 (fd_name fd)) as [I1 I2]. rewrite H1 in I1, I2.
+    destruct (memb (fd_name fd) (int_names ti)) eqn:Hm.
+    + specialize (I2 eq_refl). unfold int_names in Hm.
+      destruct (String.eqb (fd_name fd) "sofa") eqn:Es.
+      * (* the sofa reference of a subtype of AnnotationBase *)
+        apply String.eqb_eq in Es.
+        assert (Hbase : memb T_ANNOTATION_BASE (ti_anc ti) = true).
+        { destruct (memb T_ANNOTATION_BASE (ti_anc ti)); [reflexivity|]. cbn [app] in Hm.
+          destruct (memb T_ANNOTATION (ti_anc ti)); [rewrite Es in Hm; discriminate Hm|discriminate Hm]. }
+        rewrite Hbase. cbn [andb]. split; [reflexivity|]. destruct (xattr e (fd_xname fd)) as [a|]; cbn [option_map] in I2.
+        -- destruct I2 as (z & Hz & ->). exists z. auto.
+        -- rewrite I2. reflexivity.
+      * (* begin / end of a subtype of Annotation *)
+        cbn [andb].
+        assert (Hann : memb T_ANNOTATION (ti_anc ti) = true /\ (fd_name fd = "begin" \/ fd_name fd = "end")).
+        { destruct (memb T_ANNOTATION (ti_anc ti)).
+          - split; [reflexivity|]. destruct (memb T_ANNOTATION_BASE (ti_anc ti)); cbn [app memb] in Hm; rewrite ?Es in Hm;
+              cbn [orb] in Hm; rewrite !orb_false_r in Hm; apply orb_true_iff in Hm as [Hm|Hm]; apply String.eqb_eq in Hm; auto.
+          - destruct (memb T_ANNOTATION_BASE (ti_anc ti)); cbn [app memb] in Hm; rewrite ?Es in Hm; discriminate Hm. }
+        destruct Hann as [Hann Hbe]. destruct (xattr e (fd_xname fd)) as [a|]; cbn [option_map] in I2.
+        -- destruct I2 as (z & Hz & ->). right. exists z. split; [exact Hz|split; [reflexivity|]]. apply (tk_be _ _ Hti Hann fd Hin Hbe).
+        -- rewrite I2. reflexivity.
+    + rewrite (I1 eq_refl).
+      assert (Hns : String.eqb (fd_name fd) "sofa" && memb T_ANNOTATION_BASE (ti_anc ti) = false).
+      { destruct (String.eqb (fd_name fd) "sofa") eqn:Es; [|reflexivity]. apply String.eqb_eq in Es.
+        destruct (memb T_ANNOTATION_BASE (ti_anc ti)) eqn:Hb; [|reflexivity]. unfold int_names in Hm. rewrite Hb, Es in Hm. discriminate Hm. }
+      rewrite Hns. destruct (xattr e (fd_xname fd)); cbn [option_map]; auto.
   - (* child elements: a string array / string list feature *)
     assert (Hkind : fkind_of s fd = FStrColl).
     { apply (kid_strcoll s ti e fd Hti Hel); auto. rewrite kt_xkids, Hkids. discriminate. }
@@ -1312,7 +1323,7 @@ Proof.
     assert (Hns : String.eqb (fd_name fd) "sofa" && memb T_ANNOTATION_BASE (ti_anc ti) = false).
     { destruct (memb T_ANNOTATION_BASE (ti_anc ti)) eqn:Hbase; [|apply andb_false_r].
       destruct (String.eqb (fd_name fd) "sofa") eqn:Es; [|reflexivity]. apply String.eqb_eq in Es.
-      destruct (tk_base _ _ Hti Hbase fd Hin) as [Bs _]. rewrite (Bs Es) in Hkind. discriminate. }
+      rewrite (tk_base _ _ Hti Hbase fd Hin Es) in Hkind. discriminate. }
     rewrite Hns. split; [exact Hkind|].
     destruct Hw as (fd' & Hf' & Hw). rewrite (fd_find_in _ _ (tk_nodup _ _ Hti) Hin) in Hf'. inversion Hf'; subst fd'.
     rewrite Hw. unfold wrapped_val.
@@ -1360,8 +1371,8 @@ Proof.
                      (dict_of (map (fun kv => (pyname (fst kv), snd kv)) (group_kids (x_kids e) []))))))
                = match kt "elements" (x_kids e) with [] => option_map LRaw (xattr e "elements") | ts => Some (LKids ts) end).
     { rewrite alookup_adel_ne; [exact L0|reflexivity]. }
-    destruct (memb T_ANNOTATION_BASE (ti_anc ti)); [|inversion Ha2; subst; exact H1].
-    pose proof (intify_lookup _ _ _ Ha2 "elements") as [I1 _]. rewrite (I1 eq_refl). exact H1. }
+    pose proof (intify_lookup _ _ _ Ha2 "elements") as [I1 _]. rewrite I1; [exact H1|].
+    unfold int_names. destruct (memb T_ANNOTATION_BASE (ti_anc ti)), (memb T_ANNOTATION (ti_anc ti)); reflexivity. }
   rewrite H3, H2. unfold proto_arr. rewrite kt_xkids.
   destruct (xkids e "elements") as [|k0 kr] eqn:Hkids; cbn [map].
   - destruct (xattr e "elements"); reflexivity.
@@ -1470,7 +1481,7 @@ Proof.
   intros Hf. unfold parse_fs, parse_fs_with, get_type_exact. rewrite Hf. cbn [bind].
   apply bind_not_tnf.
   { destruct (alookup A_ID _) as [[]|]; try discriminate. apply int_attr_not_tnf. }
-  intros i. apply bind_not_tnf; [destruct (memb T_ANNOTATION_BASE (ti_anc ti)); [apply intify_not_tnf|discriminate]|].
+  intros i. apply bind_not_tnf; [apply intify_not_tnf|].
   intros a2. apply bind_not_tnf; [destruct (is_prim_array_name _); [discriminate|apply wrap_kids_not_tnf]|].
   intros a3. unfold mk_obj, not_tnf. destruct (forallb _ a3); discriminate.
 Qed.
